@@ -14,7 +14,7 @@ INFO = {
                    "operands: the Groth16 call receives the instance's own verifying key, the validating deserialize_compressed of input[0..128] "
                    "and the five public values decoded from input[128..288] in circuit order [y, root, nullifier, x, external_nullifier]; "
                    "x_bind hashes exactly input[296..296+signal_len] with signal_len the u64 LE at 288; the root set is built only from roots_data "
-                   "in 32-byte strides. Exhaustive over the finite set of paths/atom valuations. R02-4 (shared with C11): the C entry points verify / verify_rln_proof / verify_with_roots pass the same bytes to the same-named method and write the verdict - true and false alike - to the caller's flag exactly on the Ok arm. R02-5 (shared with C06 R06-3/R06-8): every write of the in-memory back ends recomputes all ancestors of what it changed and reports success only after that, so the root verification compares against is the root of the current leaves.",
+                   "in 32-byte strides. Exhaustive over the finite set of paths/atom valuations. R02-4 (shared with C11): the C entry points verify / verify_rln_proof / verify_with_roots pass the same bytes to the same-named method and write the verdict - true and false alike - to the caller's flag exactly on the Ok arm. R02-5 (shared with C06 R06-3/R06-8): every write of the in-memory back ends recomputes all ancestors of what it changed and reports success only after that, so the root verification compares against is the root of the current leaves. R02-5 also includes the delegation rule of the persistent adapter (every write / deletion is handed to pmtree unconditionally), so that the compared root is the root of the current leaves in the default configuration too.",
     "not_decided": "that a tampered proof part fails the pairing check (soundness of Groth16 and of the opaque arkworks callees)",
     "exhaustive": True,
     "assumptions": ["Groth16::verify_proof, deserialize_compressed, Keccak and BigUint conversions mean what their names say"],
